@@ -126,6 +126,8 @@ class WB:
             return '(%s%%)' % inner if e[1] == '%' else '(%s%s)' % (e[1], inner)
         if k == 'call':
             return '%s(%s)' % (e[1], ','.join(self.spell(a, qualify, cur_sheet) for a in e[2]))
+        if k == 'raw':
+            return e[1] if qualify == 'full' else e[2]
         if k == 'arr':
             return '{' + ';'.join(','.join(self.lit_text(v).strip('()') if not (isinstance(v, (int, float)) and not isinstance(v, bool) and v < 0)
                                            else '-' + self.lit_text(-v) for v in row) for row in e[1]) + '}'
@@ -225,6 +227,8 @@ class WB:
             for a in e[2]:
                 out += self.wire_expr(a)
             return out
+        if k == 'raw':
+            return list(e[3])
         if k == 'arr':
             return ['A', str(len(e[1])), str(len(e[1][0]))] + [wire_val(v) for row in e[1] for v in row]
         raise ValueError(e)
